@@ -28,8 +28,11 @@ def src(rnd, code, allow_raise=True):
     """(mode, text) of an expression producing error `code`"""
     i = CODES8.index(code)
     opts = [('returned', 'ERRV(%d)' % i), ('host-var', 'ev_' + LETTERS[i].lower()), ('host-cell', 'E%d' % (i + 1))]
+    # the error value sits INSIDE what the host hands over: a list variable, a range answered with rows, a cell answered with a list
+    opts += [('inside-host-container', 'INDEX(el_%s,2)' % LETTERS[i].lower()), ('inside-host-container', 'INDEX(F%d:G9,1,2)' % (i + 1)), ('inside-host-container', 'INDEX(H%d,2)' % (i + 1))]
     if allow_raise:
         opts += [('raised', 'ERRR(%d)' % i), ('raised-builtin', 'SUM(ERRV(%d))' % i), ('raised-builtin', 'MAX(2,ev_%s)' % LETTERS[i].lower())]
+        opts += [('raised-builtin-from-host-container', 'SUM(el_%s)' % LETTERS[i].lower()), ('raised-builtin-from-host-container', 'MAX(F%d:G9)' % (i + 1)), ('raised-builtin-from-host-container', 'SUM(2,H%d)' % (i + 1))]
     if code == '#DIV/0!':
         opts += [('operator', '1/0'), ('operator', '(5/(2-2))')] + ([('raised-builtin', 'SUM(1/0)'), ('raised-builtin', 'MIN(3,1/0)')] if allow_raise else [])
     if code == '#VALUE!':
@@ -393,14 +396,23 @@ class Check(BaseCheck):
         e.p.set_function('SELFEVAL', lambda x: e.p.parse('1+%d' % int(x))['result'])
         for i, c in enumerate(CODES8):
             e.p.set_variable('ev_' + LETTERS[i].lower(), objs[c])
+            e.p.set_variable('el_' + LETTERS[i].lower(), [4, objs[c], 6])
 
         def on_cell(cell, setter):
             if cell.label.startswith('E') and cell.label[1:].isdigit() and 1 <= int(cell.label[1:]) <= 8:
                 setter(objs[CODES8[int(cell.label[1:]) - 1]])
+            if cell.label.startswith('H') and cell.label[1:].isdigit() and 1 <= int(cell.label[1:]) <= 8:
+                setter([4, objs[CODES8[int(cell.label[1:]) - 1]]])
         e.p.on('callCellValue', on_cell)
         e.p.set_variable('v_arr', [10, 20])
         e.p.set_variable('v_blank', None)
-        e.p.on('callRangeValue', lambda a, b, s: s([[1, 2], [3, 4]]))
+
+        def on_range(a, b, s):
+            if a.label.startswith('F') and a.label[1:].isdigit() and 1 <= int(a.label[1:]) <= 8 and b.label == 'G9':
+                s([[1, objs[CODES8[int(a.label[1:]) - 1]]], [3, 4]])
+            else:
+                s([[1, 2], [3, 4]])
+        e.p.on('callRangeValue', on_range)
         getattr(self, 'c_' + spec['campaign'])(spec, rec)
 
     def agree(self, m, r):
